@@ -38,7 +38,7 @@ func faultCfg(errWrites, api bool) Cfg {
 	return Cfg{Mods: []string{"auth", "lock", "confirm", "recover", "register", "remember", "otp", "oauth2", "logout"},
 		Expire: true, Totp: true, Sms: true, Recovery: true, EmailAuth: false, LockAfter: 3, LockWindow: 300, LockDuration: 3600,
 		ExpireAfter: 600, RecoverDur: 3600, Mount: "/auth", API: api, ErrWrites: errWrites, LogoutMethod: "POST", MailMethod: mm,
-		RecoverLogin: true, Whitelist: []string{}, Unauthed: "redirect", Providers: []string{"google"}, Preserve: []string{}}
+		RecoverLogin: true, Whitelist: []string{}, Unauthed: "redirect", Providers: []string{"google"}, Preserve: []string{}, OneTime: true}
 }
 
 func seeds() []SymStep {
